@@ -389,18 +389,35 @@ def pop_exhaustive_case(ctx, rng, idx):
 # ------------------------------------------------- individual-level objects
 def individual_case(ctx, rng, idx):
     case = GL.LLCase(rng, allow_empty=False)
+    case.mech_wrapper = ['none', 'reduced', 'reduced_released'][idx % 3]
     feats = {'object': 'LogLikelihood', 'n_outputs': case.n_out,
-             'error_models': case.em_names}
-    ll = case.build()
-    pm = chi.PredictiveModel(toys.ToyMulti(case.n_out),
-                             [getattr(chi, e)() for e in case.em_names])
+             'error_models': case.em_names,
+             'user_mechanistic_model': case.mech_wrapper}
+    # the SAME user model is handed to the likelihood and to the predictive
+    # model (both document that they copy it)
+    user_model = case.mechanistic_model()
+    user_names = list(user_model.parameters())
+    ems = [getattr(chi, e)() for e in case.em_names]
+    times = [t.copy() for t in case.times]
+    obs = [y.copy() for y in case.obs]
+    ll = chi.LogLikelihood(user_model, ems, obs, times)
+    pm = chi.PredictiveModel(user_model, ems)
+    ll2 = chi.LogLikelihood(user_model, ems, obs, times)
+    if list(user_model.parameters()) != user_names or \
+            ll2.get_parameter_names() != ll.get_parameter_names() or \
+            user_model.n_parameters() != len(user_names):
+        _bad(ctx, 'user_model_names_changed',
+             {'before': user_names, 'after': list(user_model.parameters()),
+              'second_likelihood': ll2.get_parameter_names()}, feats)
+        return
     full = case.full_names()
     x_full = case.point(rng)
     fixed = {}
     n_steps = int(rng.integers(0, 5))
     ops = []
     ctx.case(('indiv', case.n_out, tuple(e[:3] for e in case.em_names),
-              n_steps), n_steps > 0, sample=dict(feats, steps=n_steps))
+              n_steps, case.mech_wrapper), n_steps > 0,
+             sample=dict(feats, steps=n_steps))
     for step in range(n_steps + 1):
         if step > 0:
             free = [n for n in full if n not in fixed]
@@ -603,10 +620,24 @@ def controller_case(ctx, rng, idx):
     pop = bool(rng.integers(2))
     ctx.case(('controller', n_out, tuple(e[:3] for e in ems), n_ids, pop),
              True, sample=dict(feats, population=pop))
+    user_model = toys.ToyMulti(n_out)
+    wrapper = ['none', 'reduced', 'reduced_released'][idx % 3]
+    if wrapper != 'none':
+        user_model = chi.ReducedMechanisticModel(user_model)
+        if wrapper == 'reduced_released':
+            user_model.fix_parameters({'k': 0.3})
+            user_model.fix_parameters({'k': None})
+    feats['user_mechanistic_model'] = wrapper
     c = chi.ProblemModellingController(
-        toys.ToyMulti(n_out), [getattr(chi, e)() for e in ems])
+        user_model, [getattr(chi, e)() for e in ems])
     c.set_data(data)
     n_ind = c.get_n_parameters()
+    first = c.get_parameter_names()
+    if c.get_parameter_names() != first or len(first) != n_ind:
+        _bad(ctx, 'controller_counts',
+             {'first': first, 'second': c.get_parameter_names(),
+              'n_parameters': n_ind}, feats)
+        return
     ops = []
     if pop:
         leaves = GP.random_composition(rng, n_ids, total_dim=n_ind,
